@@ -1548,7 +1548,7 @@ B('c01-get-color-not-stored', 'C01', 'R01.i', MACHINE,
 B('c14-color-to-reg-mode-swapped', 'C14', 'R01.i', MACHINE,
   "        reg = self._reg\n        if reg.unit_mode is UnitMode.RGB:", "        reg = self._reg\n        if reg.unit_mode is not UnitMode.RGB:")
 B('c07-off-sends-one', 'C07', 'R07.d', MACHINE,
-  "        return 65535 if self._reg.power else 0", "        return 65535 if self._reg.power else 1")
+  "        return 65535 if self.power else 0", "        return 65535 if self.power else 1")
 B('c05-run-loop-off-by-one', 'C05', 'R05.h', MACHINE,
   "self._reg.pc < program_len:", "self._reg.pc <= program_len:")
 B('c09-stop-job-request-dropped', 'C09', 'R09.g', JOBS,
